@@ -1,0 +1,86 @@
+//go:build verif
+
+package stcp
+
+// Contracts for govc (contract-based deductive verification, see /verif/DESIGN.md).
+// Comments only; compiled only with the build tag `verif`.
+
+//@ arith int
+//@ property C16
+//@ assumption stcp: user callbacks (ISession.Read / OnExit) may panic and may use the session's public API, but cannot write the unexported fields of Session and SessionMgr
+//
+//@ ghost exits int
+//@ ghost lastPopped interface{}
+//@ pure swf(s *Session) bool = s != nil && s.b != nil && s.sendQ != nil && s.sendQ.reqList != nil && !held(s.sendQ.lock) && errsOK() && (s.rh != nil || s.b.rh != nil)
+//
+//@ func ISession.OnExit
+//@   trusted user callback, assumed not to panic (a panic inside OnExit would skip the count decrement and the connection close of quit - outside the events the property lists); the contract counts the call
+//@   ensures exits == old(exits) + 1
+//@   modifies exits, q.Q.closed, list.List.lmem, list.List.lcnt, list.Element.lrk, list.Element.Value, region($alloc)
+//@ func ISession.Read
+//@   trusted user callback
+//@   maypanic
+//@   modifies q.Q.closed, list.List.lmem, list.List.lcnt, list.Element.lrk, list.Element.Value, region($alloc)
+//
+// quit: the exit work happens on the first call only - callback, count decrement, queue close, connection close
+//@ func Session.quit
+//@   requires swf(s)
+//@   ensures #fired oncedone(s.exitOnce)
+//@   ensures #first !old(oncedone(s.exitOnce)) ==> exits == old(exits) + 1 && atomicDecs == old(atomicDecs) + 1 && (s.conn != nil ==> connCloses == old(connCloses) + 1) && s.sendQ.closed
+//@   ensures #again old(oncedone(s.exitOnce)) ==> exits == old(exits) && atomicDecs == old(atomicDecs) && connCloses == old(connCloses)
+//@   modifies exits, atomicDecs, connCloses, region($oncedone), q.Q.closed, list.List.lmem, list.List.lcnt, list.Element.lrk, list.Element.Value, region($alloc)
+//
+//@ func Session.recovery
+//@   inline
+//
+//@ func Session.Start
+//@   requires swf(s)
+//@   ensures #first !old(oncedone(s.startOnce)) ==> atomicIncs == old(atomicIncs) + 1
+//@   ensures #again old(oncedone(s.startOnce)) ==> atomicIncs == old(atomicIncs)
+//@   modifies atomicIncs, region($oncedone), region($spawns)
+//
+//@ func Session.send
+//@   requires swf(s) && s.conn != nil
+//@   requires #own any(buf) == lastPopped && len(buf) != 0
+//@   ensures #whole connWrites <= old(connWrites) + 1 && (result == nil ==> connWrites == old(connWrites) + 1 && connLastWrite == buf)
+//@   modifies connWrites, connLastWrite
+//
+// loopSend: whatever ends the loop, quit runs; a popped item is written whole and unmodified before the next pop; the
+// loop ends without a send error only when the queue is closed and drained (PopAnyway's contract) or an item is invalid
+//@ func Session.loopSend
+//@   requires swf(s) && s.conn != nil && !oncedone(s.exitOnce)
+//@   aftercall PopAnyway lastPopped = result
+//@   ensures #quit oncedone(s.exitOnce) && exits == old(exits) + 1 && atomicDecs == old(atomicDecs) + 1 && connCloses == old(connCloses) + 1
+//@   modifies everything()
+//@   loop 1
+//@     invariant swf(s) && s.conn != nil && !oncedone(s.exitOnce) && exits == old(exits) && atomicDecs == old(atomicDecs) && connCloses == old(connCloses)
+//
+//@ func Session.loopReceive
+//@   requires swf(s) && s.conn != nil && !oncedone(s.exitOnce)
+//@   ensures #quit oncedone(s.exitOnce) && exits == old(exits) + 1 && atomicDecs == old(atomicDecs) + 1 && connCloses == old(connCloses) + 1
+//@   modifies everything()
+//@   loop 1
+//@     invariant swf(s) && s.conn != nil && !oncedone(s.exitOnce) && exits == old(exits) && atomicDecs == old(atomicDecs) && connCloses == old(connCloses)
+//
+// logging helpers: no effect on the state the contracts talk about
+//@ func SessionMgr.Logger
+//@   requires m != nil
+//@   modifies
+//@ func Session.KeyZaps
+//@   trusted logging helper (reads the session's atomic value)
+//@   modifies
+//@ func Session.RemoteZap
+//@   trusted logging helper (reads the remote address)
+//@   modifies
+//@ func Session.loggerSendReadErr
+//@   requires s != nil && s.b != nil
+//@   modifies
+//
+//@ func Session.Send
+//@   requires swf(s)
+//@   ensures #refusedclosed cs(s.sendQ.closed) ==> result != nil
+//@   modifies q.Q.closed, list.List.lmem, list.List.lcnt, list.Element.lrk, list.Element.Value, region($alloc)
+//@ func Session.Close
+//@   requires swf(s)
+//@   ensures #closed s.sendQ.closed
+//@   modifies q.Q.closed, list.List.lmem, list.List.lcnt, list.Element.lrk, list.Element.Value
